@@ -20,7 +20,7 @@ PROPS["C12"] = {
     "level": "exploration",
     "quick": [S("TestC12Sweep", floor=1000, env={"VERIF_LO": 1 + i * 125000, "VERIF_HI": (i + 1) * 125000}) for i in range(8)] + shards(4, "TestC12", 20000, floor=5000),
     "thorough": [S("TestC12Sweep", floor=1000, env={"VERIF_LO": 1 + i * 62500, "VERIF_HI": (i + 1) * 62500}) for i in range(16)]
-                + shards(8, "TestC12", 60000, floor=10000),
+                + shards(8, "TestC12", 300000, floor=60000, timeout=3400),
     "exhaustive": {"quick": "Threshold(s) for every s in 1..10^6", "thorough": "Threshold(s) for every s in 1..10^6"},
     "assumptions": ["Go math.Erfc/Sqrt trusted", "reference Igamc validated against an mpmath table on every run"],
 }
@@ -33,7 +33,7 @@ RULES["C06"] = ("cases: (a,x,x2) with a = k/2, k from shapes the tests use / [1,
 PROPS["C06"] = {
     "level": "exploration",
     "quick": shards(8, "TestC06", 4000, floor=2000) + [S("TestC06Sweep", floor=1000)],
-    "thorough": [S("TestC06Sweep", floor=1000)] + shards(14, "TestC06", 60000, floor=20000) + [S("FuzzIgamc", fuzz="FuzzIgamc", fuzztime=60, parallel=4, floor=1000, weight=4, timeout=600)],
+    "thorough": [S("TestC06Sweep", floor=1000)] + shards(14, "TestC06", 150000, floor=40000, timeout=3400) + [S("FuzzIgamc", fuzz="FuzzIgamc", fuzztime=240, parallel=4, floor=1000, weight=4, timeout=600)],
     "assumptions": ["reference = finite-sum closed form in 320-bit big.Float, validated against mpmath (600 points) on every run",
                     "math.Erfc trusted (<= 1 ulp)", "x > 20a+200 is outside the stated range and not generated"],
 }
@@ -48,7 +48,7 @@ RULES["C01"] = (_SEQ + "tests: monobit (bits/bytes), block frequency (automatic 
 PROPS["C01"] = {
     "level": "exploration",
     "quick": shards(8, "TestC01", 6000, floor=1500) + [S("TestC01Sweep", floor=10)],
-    "thorough": shards(15, "TestC01", 4000, floor=1500, timeout=3000) + [S("TestC01Sweep", floor=10), S("TestC01Sweep", mode="huge", floor=2, mem_gb=60)],
+    "thorough": shards(15, "TestC01", 100000, floor=20000, timeout=3400) + [S("TestC01Sweep", floor=10), S("TestC01Sweep", mode="huge", floor=2, mem_gb=60)],
     "assumptions": ["reference statistics are my transcription of the standard, validated on the annex known answers on every run",
                     "math.Erfc/Log trusted"],
 }
@@ -60,7 +60,7 @@ RULES["C02"] = (_SEQ + "tests: runs total (n from 1), runs distribution (n >= 10
 PROPS["C02"] = {
     "level": "exploration",
     "quick": shards(8, "TestC02", 5000, floor=1500) + [S("TestC02Sweep", floor=20)],
-    "thorough": shards(15, "TestC02", 8000, floor=3000, timeout=3000) + [S("TestC02Sweep", floor=20), S("TestC02Sweep", mode="huge", floor=4, mem_gb=60, timeout=3400)],
+    "thorough": shards(15, "TestC02", 60000, floor=15000, timeout=3400) + [S("TestC02Sweep", floor=20), S("TestC02Sweep", mode="huge", floor=4, mem_gb=60, timeout=3400)],
     "assumptions": ["reference statistics validated on the annex known answers on every run", "math.Erfc trusted"],
 }
 
@@ -71,11 +71,11 @@ RULES["C03"] = (_SEQ + "tests: binary derivative k in {3,7,15} (plus period-2^j 
 PROPS["C03"] = {
     "level": "exploration",
     "quick": shards(8, "TestC03", 6000, floor=1500) + [S("TestC03Sweep", floor=20)],
-    "thorough": shards(15, "TestC03", 8000, floor=3000, timeout=3000) + [S("TestC03Sweep", floor=20)],
+    "thorough": shards(15, "TestC03", 100000, floor=20000, timeout=3400) + [S("TestC03Sweep", floor=20)],
     "assumptions": ["reference statistics validated on the annex known answers on every run", "math.Erfc trusted"],
 }
 
-RULES["C04"] = ("linear complexity: (a) every one of the 2^m blocks for m = 1..12 (quick) / 1..16 (thorough) as a one-block input (exhaustive); (b) m in {500,1000,(5000 thorough), 1..64} with "
+RULES["C04"] = ("linear complexity: (a) every one of the 2^m blocks for m = 1..12 (quick) / 1..18 (thorough) as a one-block input (exhaustive); (b) m in {500,1000,(5000 thorough), 1..64} with "
                 "1..12 blocks each drawn from {LFSR output of drawn degree L in [0,m] or m/2+-6, all-zero, 0^(m-1)1, 1 0^(m-1), L leading zeros then random (complexity L+1), random, explicit bits} "
                 "+ a trailing partial block; rank: 1..40 row-major 32x32 matrices each built as a product of random 32xr and rx32 matrices (r in {32,31,28..30,0..32}) + trailing bits; "
                 "Maurer: n from 7*1281 to 60000 (some to 10^6 thorough), uniform/biased/constant/periodic/markov/sparse, optionally the 1280 initialisation blocks rewritten from a restricted 7-bit alphabet. "
@@ -85,11 +85,11 @@ PROPS["C04"] = {
     "level": "exploration",
     "quick": shards(6, "TestC04", 1200, floor=300) + [S("TestC04", 1200, mode="rank", floor=300), S("TestC04", 800, mode="maurer", floor=200)]
              + [S("TestC04Exhaustive", floor=1000, env={"VERIF_LO": 1, "VERIF_HI": 12, "VERIF_PART": i, "VERIF_PARTS": 4}) for i in range(4)],
-    "thorough": shards(8, "TestC04", 2500, floor=800, timeout=3400) + shards(2, "TestC04", 2000, mode="rank", floor=500) + shards(2, "TestC04", 1500, mode="maurer", floor=300)
-             + [S("TestC04Exhaustive", floor=10000, env={"VERIF_LO": 1, "VERIF_HI": 16, "VERIF_PART": i, "VERIF_PARTS": 8}, timeout=3400) for i in range(8)]
-             + [S("FuzzLinearComplexity", fuzz="FuzzLinearComplexity", fuzztime=90, parallel=6, floor=1000, weight=6, timeout=600),
-                S("FuzzRank", fuzz="FuzzRank", fuzztime=60, parallel=4, floor=1000, weight=4, timeout=600)],
-    "exhaustive": {"quick": "all 2^m one-block inputs of LinearComplexityProto for m = 1..12", "thorough": "all 2^m one-block inputs of LinearComplexityProto for m = 1..16"},
+    "thorough": shards(8, "TestC04", 20000, floor=4000, timeout=3400) + shards(2, "TestC04", 15000, mode="rank", floor=3000, timeout=3400) + shards(2, "TestC04", 10000, mode="maurer", floor=2000, timeout=3400)
+             + [S("TestC04Exhaustive", floor=10000, env={"VERIF_LO": 1, "VERIF_HI": 18, "VERIF_PART": i, "VERIF_PARTS": 8}, timeout=3400) for i in range(8)]
+             + [S("FuzzLinearComplexity", fuzz="FuzzLinearComplexity", fuzztime=300, parallel=6, floor=1000, weight=6, timeout=600),
+                S("FuzzRank", fuzz="FuzzRank", fuzztime=240, parallel=4, floor=1000, weight=4, timeout=600)],
+    "exhaustive": {"quick": "all 2^m one-block inputs of LinearComplexityProto for m = 1..12", "thorough": "all 2^m one-block inputs of LinearComplexityProto for m = 1..18"},
     "assumptions": ["reference statistics validated on the annex known answers (e-expansion) on every run",
                     "linear-complexity class probabilities are the printed decimals of the standard (0.010417 ... 0.020833)"],
 }
@@ -101,7 +101,7 @@ RULES["C05"] = ("sequences from families {explicit bits, uniform, biased, consta
 PROPS["C05"] = {
     "level": "exploration",
     "quick": shards(8, "TestC05", 1500, floor=400) + [S("TestC05Sweep", floor=100)],
-    "thorough": shards(15, "TestC05", 4000, floor=1000, timeout=3400) + [S("TestC05Sweep", floor=100, env={"VERIF_HI": 300})]
+    "thorough": shards(15, "TestC05", 12000, floor=3000, timeout=3400) + [S("TestC05Sweep", floor=100, env={"VERIF_HI": 300})]
                 + [S("TestC05Huge", floor=1, env={"VERIF_N": n}, mem_gb=40, weight=4, timeout=3400) for n in (100000000, 1 << 27)],
     "assumptions": ["generated cases use n <= 2^18; the thorough tier additionally runs n = 10^8 and n = 2^27 (the top of the stated range) on single-transition sequences whose spectrum has a closed form (no reference transform needed)",
                     "math.Sincos/cmplx.Abs trusted"],
@@ -115,8 +115,8 @@ RULES["C19"] = ("cases: transform (N = 2^p, p in 1..12 mostly, 13..15 (20 thorou
 PROPS["C19"] = {
     "level": "exploration",
     "quick": shards(8, "TestC19", 2000, floor=500) + [S("TestC19Sweep", floor=100)],
-    "thorough": shards(15, "TestC19", 5000, floor=1500, timeout=3400) + [S("TestC19Sweep", floor=100, env={"VERIF_HI": 70000}, timeout=3400)]
-                + [S("FuzzFFTNew", fuzz="FuzzFFTNew", fuzztime=60, parallel=4, floor=1000, weight=4, timeout=600)],
+    "thorough": shards(15, "TestC19", 30000, floor=8000, timeout=3400) + [S("TestC19Sweep", floor=100, env={"VERIF_HI": 70000}, timeout=3400)]
+                + [S("FuzzFFTNew", fuzz="FuzzFFTNew", fuzztime=180, parallel=4, floor=1000, weight=4, timeout=600)],
     "assumptions": ["fft.New(2^27) is constructed once per run (3 GB); a full 2^27-point transform (unit impulse, analytic spectrum on sampled bins, inverse round trip) only in the thorough tier",
                     "a panic on a wrong-length slice counts as 'refused' (the property says refused rather than computed)"],
 }
@@ -132,7 +132,7 @@ PROPS["C07"] = {
     "level": "exploration",
     "quick": shards(6, "TestC07", 150, mode="period", floor=50) + [S("TestC07", 1, mode="poweron", floor=1, weight=2, env={"VERIF_TARGETS": tg}) for tg in ("one-bad", "passcount", "uniformity", "mixed", "half", "two-items")]
              + [S("TestC07", 1, mode="factory", floor=1, weight=2, env={"VERIF_TARGETS": tg}) for tg in ("one-bad", "uniformity", "half")],
-    "thorough": shards(6, "TestC07", 1500, mode="period", floor=500) + shards(7, "TestC07", 20, mode="poweron", floor=6, weight=2, timeout=3400)
+    "thorough": shards(6, "TestC07", 6000, mode="period", floor=1500, timeout=3400) + shards(7, "TestC07", 20, mode="poweron", floor=6, weight=2, timeout=3400)
                 + shards(3, "TestC07", 8, mode="factory", floor=3, weight=2, timeout=3400),
     "assumptions": ["the registry runners' per-sample results are taken as given (their correctness is C01-C05/C15/C16)",
                     "pool annotations (computed once on the repaired tree) only steer generation"],
@@ -150,8 +150,8 @@ PROPS["C08"] = {
              + [S("TestC08", 25, mode="period", race=True, floor=10, weight=3)]
              + [S("TestC08", 1, mode="poweron", floor=1, weight=3, env={"VERIF_TARGETS": "mixed"}), S("TestC08", 1, mode="poweron", floor=1, weight=3, env={"VERIF_TARGETS": "mixed"}),
                 S("TestC08", 1, mode="poweron", cpus="0-2", floor=1, weight=3, env={"VERIF_TARGETS": "one-bad"}), S("TestC08", 1, mode="factory", floor=1, weight=4, env={"VERIF_TARGETS": "one-bad"})],
-    "thorough": [S("TestC08", 1500, mode="period", cpus=c, floor=400) for c in _CPUS] + shards(3, "TestC08", 1500, mode="period", floor=400)
-             + shards(2, "TestC08", 300, mode="period", race=True, floor=100, weight=2)
+    "thorough": [S("TestC08", 4000, mode="period", cpus=c, floor=1000, timeout=3400) for c in _CPUS] + shards(3, "TestC08", 4000, mode="period", floor=1000, timeout=3400)
+             + shards(2, "TestC08", 800, mode="period", race=True, floor=200, weight=2, timeout=3400)
              + [S("TestC08", 12, mode="poweron", cpus=c, floor=4, weight=3, timeout=3400) for c in ("0-1", "0-4", None, None)]
              + [S("TestC08", 5, mode="factory", floor=2, weight=4, timeout=3400), S("TestC08", 1, mode="poweron", race=True, floor=1, weight=4, timeout=3400)],
     "assumptions": ["interleavings are sampled and perturbed, not enumerated; delays inside the test runners are not injectable without a hook",
@@ -171,9 +171,9 @@ PROPS["C09"] = {
              + [S("TestC09", 60, mode="period", race=True, floor=20, weight=2)],
     "thorough": [S("TestC09Enum", mode="single", floor=1000)] + [S("TestC09Enum", mode="period", floor=50, env={"VERIF_PART": i, "VERIF_PARTS": 4}) for i in range(4)]
              + [S("TestC09Enum", mode="big", floor=5, env={"VERIF_PART": i, "VERIF_PARTS": 6}, weight=2) for i in range(6)]
-             + [S("TestC09", 3000, mode="period", cpus=c, floor=800) for c in _CPUS] + [S("TestC09", 5000, mode="single", floor=1000)]
+             + [S("TestC09", 10000, mode="period", cpus=c, floor=2500, timeout=3400) for c in _CPUS] + [S("TestC09", 50000, mode="single", floor=10000)]
              + [S("TestC09", 20, mode="poweron", floor=6, weight=3, timeout=3400), S("TestC09", 12, mode="factory", floor=4, weight=3, timeout=3400)]
-             + [S("TestC09", 600, mode="period", race=True, floor=200, weight=2)],
+             + [S("TestC09", 2000, mode="period", race=True, floor=500, weight=2, timeout=3400)],
     "assumptions": ["the harness owns the only external party (the reader), so 'all library goroutines parked' means nothing can wake them",
                     "a source that returns (0, nil) forever is outside the property"],
 }
@@ -187,7 +187,7 @@ PROPS["C10"] = {
     "quick": shards(5, "TestC10", 120, mode="period", floor=40) + [S("TestC10", 400, mode="single", floor=100)]
              + [S("TestC10", 1, mode="poweron", env={"VERIF_FAST": 1, "VERIF_TARGETS": "one-bad"}, floor=1, weight=4), S("TestC10", 1, mode="poweron", env={"VERIF_FAST": 0, "VERIF_TARGETS": "one-bad"}, floor=1, weight=2),
                 S("TestC10", 1, mode="poweron", env={"VERIF_FAST": 1, "VERIF_TARGETS": "one-bad", "VERIF_PLAN": "pow2-remainder"}, floor=1, weight=4), S("TestC10", 1, mode="factory", env={"VERIF_FAST": 1, "VERIF_TARGETS": "one-bad", "VERIF_PLAN": "pow2-remainder"}, floor=1, weight=4)],
-    "thorough": shards(6, "TestC10", 2500, mode="period", floor=600) + [S("TestC10", 5000, mode="single", floor=1000)]
+    "thorough": shards(6, "TestC10", 8000, mode="period", floor=2000, timeout=3400) + [S("TestC10", 50000, mode="single", floor=10000)]
              + [S("TestC10", 10, mode="poweron", env={"VERIF_FAST": f}, floor=3, weight=3, timeout=3400) for f in (0, 1, 1)]
              + [S("TestC10", 4, mode="factory", env={"VERIF_FAST": f}, floor=2, weight=3, timeout=3400) for f in (0, 1)]
              + [S("TestC10", 14, mode="poweron", env={"VERIF_FAST": 1, "VERIF_TARGETS": "one-bad", "VERIF_PLAN": "pow2-remainder"}, floor=4, weight=3, timeout=3400) for _ in range(2)],
@@ -201,7 +201,7 @@ RULES["C11"] = ("cases: numByte from {0,1,14..17,38..41,1278..1281,4096, [0,60],
 PROPS["C11"] = {
     "level": "exploration",
     "quick": shards(8, "TestC11", 4000, floor=1000) + [S("TestC11Sweep", floor=100, env={"VERIF_LO": 0, "VERIF_HI": 400})],
-    "thorough": shards(12, "TestC11", 20000, floor=5000) + [S("TestC11Sweep", floor=1000, env={"VERIF_LO": i * 1025, "VERIF_HI": i * 1025 + 1024}) for i in range(4)],
+    "thorough": shards(12, "TestC11", 200000, floor=50000, timeout=3400) + [S("TestC11Sweep", floor=1000, env={"VERIF_LO": i * 1025, "VERIF_HI": i * 1025 + 1024}) for i in range(4)],
     "assumptions": ["reference poker validated on the annex known answers on every run"],
 }
 
@@ -214,7 +214,7 @@ PROPS["C14"] = {
              + [S("TestC14", 1, mode="poweron", floor=1, weight=3, env={"VERIF_TILEKIND": "sparse"}), S("TestC14", 1, mode="poweron", floor=1, weight=3, env={"VERIF_TILEKIND": "uniform"}),
                 S("TestC14", 1, mode="factory", floor=1, weight=3, env={"VERIF_TILEKIND": "sparse"})]
              + [S("TestC14Enum", mode="big", floor=1, weight=2, env={"VERIF_PART": i, "VERIF_PARTS": 4}) for i in range(4)],
-    "thorough": [S("TestC14Enum", mode="big", floor=1, weight=2, env={"VERIF_PART": i, "VERIF_PARTS": 4}) for i in range(4)] + shards(6, "TestC14", 3000, mode="period", floor=800) + [S("TestC14", 5000, mode="single", floor=1000), S("TestC14Enum", floor=200, env={"VERIF_HI": 4096})]
+    "thorough": [S("TestC14Enum", mode="big", floor=1, weight=2, env={"VERIF_PART": i, "VERIF_PARTS": 4}) for i in range(4)] + shards(6, "TestC14", 8000, mode="period", floor=2000, timeout=3400) + [S("TestC14", 20000, mode="single", floor=4000), S("TestC14Enum", floor=200, env={"VERIF_HI": 4096})]
              + shards(5, "TestC14", 10, mode="poweron", floor=3, weight=2, timeout=3400) + shards(2, "TestC14", 4, mode="factory", floor=2, weight=2, timeout=3400),
     "assumptions": ["the 10^6-bit workflows cost 10-80 s per stream, so only a few tiles per run go through them"],
 }
@@ -226,7 +226,7 @@ RULES["C15"] = ("byte strings (128..4000 bytes, >= the test's minimum; odd and e
 PROPS["C15"] = {
     "level": "exploration",
     "quick": shards(8, "TestC15", 1200, floor=300) + [S("TestC15Sweep", floor=50)],
-    "thorough": shards(14, "TestC15", 5000, floor=1500, timeout=3400) + [S("TestC15Sweep", floor=50)],
+    "thorough": shards(14, "TestC15", 40000, floor=10000, timeout=3400) + [S("TestC15Sweep", floor=50)],
     "assumptions": ["the mapping 'i-th test of the standard' -> exported function is the harness's table (GM/T 0005-2021 numbering)"],
 }
 
@@ -237,7 +237,7 @@ RULES["C16"] = ("every one of the fifteen tests x its documented parameters on e
 PROPS["C16"] = {
     "level": "exploration",
     "quick": [S("TestC16PassBoundary", floor=50)] + shards(6, "TestC16", 1200, floor=400) + [S("TestC16Sweep", floor=20, env={"VERIF_PART": i, "VERIF_PARTS": 6}) for i in range(6)],
-    "thorough": [S("TestC16PassBoundary", floor=200, env={"VERIF_PER_TEST": 400})] + shards(10, "TestC16", 12000, floor=4000, timeout=3400) + [S("TestC16Sweep", floor=20, env={"VERIF_PART": i, "VERIF_PARTS": 3}) for i in range(3)]
+    "thorough": [S("TestC16PassBoundary", floor=200, env={"VERIF_PER_TEST": 400})] + shards(10, "TestC16", 60000, floor=15000, timeout=3400) + [S("TestC16Sweep", floor=20, env={"VERIF_PART": i, "VERIF_PARTS": 3}) for i in range(3)]
                 + [S("TestC16Sweep", floor=10, env={"VERIF_PART": i, "VERIF_PARTS": 3, "VERIF_BIG": 1}, timeout=3400, mem_gb=60) for i in range(3)],
     "assumptions": ["DFT above 2^22 points is not executed"],
 }
@@ -249,7 +249,7 @@ RULES["C17"] = (_SEQ + "x a transformation admissible for the drawn test: comple
 PROPS["C17"] = {
     "level": "exploration",
     "quick": shards(6, "TestC17", 1200, floor=400) + [S("TestC17Sweep", floor=5, env={"VERIF_PART": i, "VERIF_PARTS": 8}) for i in range(8)],
-    "thorough": shards(8, "TestC17", 12000, floor=4000, timeout=3400) + [S("TestC17Sweep", floor=5, env={"VERIF_PART": i, "VERIF_PARTS": 8}) for i in range(8)],
+    "thorough": shards(8, "TestC17", 60000, floor=15000, timeout=3400) + [S("TestC17Sweep", floor=5, env={"VERIF_PART": i, "VERIF_PARTS": 8}) for i in range(8)],
     "assumptions": ["rank and linear complexity are not asserted under complement or reversal (the property does not list them)"],
 }
 
@@ -260,7 +260,7 @@ RULES["C18"] = ("a plan of 2..64 goroutines, each assigned a drawn test (the fif
 PROPS["C18"] = {
     "level": "exploration",
     "quick": shards(4, "TestC18", 60, floor=20) + shards(3, "TestC18", 25, race=True, floor=8, weight=3),
-    "thorough": shards(8, "TestC18", 1200, floor=400, timeout=3400) + shards(6, "TestC18", 300, race=True, floor=100, weight=2, timeout=3400),
+    "thorough": shards(8, "TestC18", 4000, floor=1000, timeout=3400) + shards(6, "TestC18", 800, race=True, floor=200, weight=2, timeout=3400),
     "assumptions": ["interleavings are sampled (barrier release, GOMAXPROCS), not enumerated", "the race detector only sees races on executed paths"],
 }
 
@@ -278,7 +278,7 @@ PROPS["C13"] = {
                 S("TestC13", 1, env={"VERIF_SCALE": "1E6", "VERIF_WORKERS": 1, "VERIF_MINFILES": 2, "VERIF_MAXFILES": 2, "VERIF_RACE_BIN": 1}, floor=1, weight=2)]
              + [S("TestC13", 2, env={"VERIF_SCALE": "1E8"}, floor=1, weight=2), S("TestC13", 1, env={"VERIF_SCALE": "1E8", "VERIF_WORKERS": 1, "VERIF_MINFILES": 2, "VERIF_RACE_BIN": 1}, floor=1, weight=2),
                 S("TestC13", 1, env={"VERIF_SCALE": "1E8hdr"}, floor=1)],
-    "thorough": [S("TestC13", 150, env={"VERIF_SCALE": "2E4"}, floor=50, timeout=3400) for _ in range(4)]
+    "thorough": [S("TestC13", 600, env={"VERIF_SCALE": "2E4"}, floor=150, timeout=3400) for _ in range(4)]
              + [S("TestC13", 60, env={"VERIF_SCALE": "2E4", "VERIF_RACE_BIN": 1}, floor=20, weight=2, timeout=3400), S("TestC13", 40, env={"VERIF_SCALE": "2E4", "VERIF_RACE_BIN": 1, "VERIF_WORKERS": 1, "VERIF_MINFILES": 3}, floor=10, weight=2, timeout=3400)]
              + [S("TestC13", 8, env={"VERIF_SCALE": "1E6"}, floor=3, weight=3, timeout=3400) for _ in range(2)]
              + [S("TestC13", 5, env={"VERIF_SCALE": "1E6", "VERIF_WORKERS": w, "VERIF_MINFILES": 3}, floor=2, weight=2, timeout=3400) for w in (1, 2)]
@@ -298,7 +298,7 @@ PROPS["C20"] = {
     "level": "exploration",
     "need": ["rdgen", "shim"],
     "quick": shards(6, "TestC20", 60, floor=15),
-    "thorough": shards(8, "TestC20", 150, floor=50, timeout=3400) + [S("TestC20Big", floor=1)],
+    "thorough": shards(8, "TestC20", 600, floor=150, timeout=3400) + [S("TestC20Big", floor=1)],
     "assumptions": ["directory permission bits (MkdirAll(..., 0600)) are invisible when running as root and are not asserted",
                     "contents come from crypto/rand: equality of two files or an all-zero file is treated as impossible for n >= 128"],
 }
